@@ -8,6 +8,8 @@ open Zutil
 
 (* set to false to run the model of Encoder.Encode as found (no alignment check) *)
 let aligned = ref true
+(* set to false to run the model of Decoder.Decode as found (513 segments accepted) *)
+let seglimit_fixed = ref true
 
 let rec zeros_l n acc = if n <= 0 then acc else zeros_l (n - 1) (Z0 :: acc)
 
@@ -39,7 +41,7 @@ let cls = function
   | ESegOverflow -> "seg-overflow" | ETooManySegs -> "too-many-segments" | ETooLarge -> "too-large"
   | EConfig -> "config" | EReadHeader -> "unexpected-eof/hdr" | EReadSegs -> "unexpected-eof/segs"
   | ENoSegs -> "no-segments" | EHdrOverflow -> "hdr-overflow" | ESegTooLarge -> "seg-too-large"
-  | EUnaligned -> "unaligned" | ESizeOverflow -> "size-overflow"
+  | EUnaligned -> "unaligned" | ESizeOverflow -> "size-overflow" | EUnpack -> "unpack"
 
 let zstr z = match z with
   | Z0 -> "0"
@@ -84,31 +86,49 @@ let show_decode st (out, log) maxv =
   | DPanic -> "panic"
 
 let run_decode packed maxv chunks ops stream =
-  let rd = if packed then (match packed_reader stream with Some r -> r | None -> failwith "fuel")
-           else { r_chunks = chunk_stream chunks stream; r_final = EOF } in
-  let st = ref (d_init rd maxv) in
   let outs = ref [] in
-  let dead = ref false in
-  List.iter (fun o ->
-    if not !dead then begin
-    let (st', r) = dstep !st o in
-    st := st';
-    match r with
-    | Some x ->
-      outs := show_decode st' x st'.d_max :: !outs;
-      (* packed path: the history ends with the first outcome that is not a message (the state of
-         packed.Reader after an error is not part of this model) *)
-      (match x with (DMsg _, _) -> () | _ -> if packed then dead := true)
-    | None -> () end) ops;
+  if packed then begin
+    (* NewPackedDecoder: the Decoder over the C13 model of packed.Reader.Read; bufio's answers
+       (fast path / short read) are oracles, fixed to false here: by the C14 packed theorems the
+       outcome does not depend on them up to the first outcome that is not a message *)
+    let st = ref (d_init (p_init (fun _ -> (false, false)) stream) maxv) in
+    let dead = ref false in
+    List.iter (fun o ->
+      if not !dead then begin
+      let (st', r) = pdstep !seglimit_fixed !st o in
+      st := st';
+      match r with
+      | Some x ->
+        outs := show_decode st' x st'.d_max :: !outs;
+        (match x with (DMsg _, _) -> () | _ -> dead := true)
+      | None -> () end) ops
+  end else begin
+    let st = ref (d_init { r_chunks = chunk_stream chunks stream; r_final = EOF } maxv) in
+    List.iter (fun o ->
+      let (st', r) = dstep_gen !seglimit_fixed !st o in
+      st := st';
+      match r with
+      | Some x -> outs := show_decode st' x st'.d_max :: !outs
+      | None -> ()) ops
+  end;
   String.concat " " (List.rev !outs)
 
 let show_bytes = function Ok b -> "ok " ^ render b | Err e -> "err " ^ cls e | Panic -> "panic"
 
 let () =
-  Array.iter (fun a -> if a = "-prefix" then aligned := false) Sys.argv;
+  Array.iter (fun a -> if a = "-prefix" then aligned := false; if a = "-prefix513" then seglimit_fixed := false) Sys.argv;
   iter_lines (fun line ->
+  (* a case too deep for the native stack (only seen with a broken implementation feeding the
+     generator) must not hide the other cases *)
+  try
   match split_ws line with
   | "marshal" :: _ :: s :: _ -> print_endline (show_bytes (marshal (segs_of_expr s)))
+  | "marshalpacked" :: _ :: s :: _ -> print_endline (show_bytes (marshal_packed (segs_of_expr s)))
+  | "unmarshalpacked" :: b :: _ ->
+    print_endline (match unmarshal_packed (bytes_of_expr b) with
+      | Ok segs -> Printf.sprintf "ok %d %s" (List.length segs) (render_segs segs)
+      | Err e -> "err " ^ cls e
+      | Panic -> "panic")
   | "unmarshal" :: b :: _ ->
     let data = bytes_of_expr b in
     let a = if zle (unmarshal_alloc data) (Model.Z.mul (z_of_int 6) (len data)) then "A1" else "A0" in
@@ -130,4 +150,5 @@ let () =
     print_endline (match total_size (bytes_of_expr b) with
       | Ok s -> "ok " ^ zstr s | Err e -> "err " ^ cls e | Panic -> "panic")
   | [] -> ()
-  | _ -> print_endline "bad-case")
+  | _ -> print_endline "bad-case"
+  with Stack_overflow -> print_endline "model-stack-overflow")
